@@ -125,6 +125,6 @@ def case_from_call(cid, call, **flags):
     R = max(0, min(W, round(call['ribbon_frac'] * W)))
     c = {'id': cid, 'W': W, 'fn': R, 'fd': W, 'smart': True, 'nodes': call['nodes'], 'root': call['root'],
          'obs': G.obs_of(call['stream']), 'ctxt': call['ctxt'], 'model': False, 'term': [],
-         'c05': False, 'c06': False, 'strict': True, 'diag': False}
+         'c05': False, 'c06': False, 'strict': True, 'diag': False, 'rnl': False}
     c.update(flags)
     return c
